@@ -124,7 +124,11 @@ def models(tier, seed):
         dict(module="MC_Wb2Native", cfg="MC_Wb2Native_neg_merge.cfg", workers=2, timeout=600, expect_violation=True,
              label="negative control: merge into an occupied lane"),
         dict(module="MC_Wb2Native", cfg="MC_Wb2Native_cover.cfg", workers=2, timeout=600, expect_violation=True,
-             label="vacuity guard: cache hit / aborted read / merge / maybe-written byte are reachable"),
+             extra=("-simulate", "num=4000", "-depth", "400"),
+             label="vacuity guard (narrow): cache hit, aborted read, merge, both flush causes, burst are reachable in one behaviour"),
+        dict(module="MC_Wb2Native", cfg="MC_WbEq_cover.cfg", workers=2, timeout=600, expect_violation=True,
+             extra=("-simulate", "num=4000", "-depth", "400"),
+             label="vacuity guard (equal): aborted write, access behind an aborted read, maybe-written byte are reachable"),
     ]
     if not q:
         ms += [
@@ -141,10 +145,5 @@ def models(tier, seed):
 
 
 def post(ctx, results, mresults):
-    lock = [(sc["name"], r.get("lockstep")) for sc, r in results if not r.get("error") and r.get("lockstep")]
-    drift = [n for n, l in lock if l["variant"] is None]
-    for n, l in lock:
-        if l["variant"] is None:
-            print("MODEL-DRIFT module=%s first=%s" % (n, l["drift"]))
-    return dict(design_model_bound=bool(lock) and not drift,
-                lockstep=[dict(scenario=n, cycles=l["cycles"], matches_variant=l["variant"]) for n, l in lock])
+    lock = [(sc["name"], r.get("lockstep_detail")) for sc, r in results if not r.get("error") and r.get("lockstep_detail")]
+    return dict(lockstep_detail=[dict(scenario=n, cycles=l["cycles"], matches_model_variant=l["variant"]) for n, l in lock])
